@@ -468,7 +468,13 @@ def run_config(prog, cfg):
             i.config = cfg
     from . import termination
     r10 = termination.rule_for(prog, "R07.10", "the encoders and printers", scope, 40 if cfg == "default" else 10, cfg)
-    return [r1, r2, r3, r4, r5, r6, r07_7(prog, cfg), r07_8(prog, cfg), r07_9(prog, cfg), r10]
+    # R07.11: the text encoders and printers format through (v)snprintf into a scratch buffer and retry: the fit test and the
+    # retry size follow C99 7.19.6.5 (rules/fit.py); a wrong one delivers truncated text (size accounting) or never returns
+    from . import fit
+    r11 = fit.snprintf_fit(prog, "R07.11", 5 if cfg == "default" else 3, "the runtime (printers, XER text encoders, constraint messages)")
+    for i in r11.insts:
+        i.config = cfg
+    return [r1, r2, r3, r4, r5, r6, r07_7(prog, cfg), r07_8(prog, cfg), r07_9(prog, cfg), r10, r11]
 
 
 def run(ctx):
